@@ -184,6 +184,20 @@ func runC19(root string, c C19Case) (nontrivial bool, v *Violation) {
 				}
 				sawTOML = sawTOML || c19IsTOML(file)
 			}
+		case "flood":
+			// more modifications than the kernel's event queue holds (fs.inotify.max_queued_events, 16384 here) while the
+			// consumer is not reading: events get lost in the kernel - what must survive is the watcher itself
+			for k := 0; k < op.N; k++ {
+				file := op.File
+				if k%2 == 1 {
+					file = "device.toml"
+				}
+				if wv := write(op.Dir, file, ""); wv != nil {
+					return false, wv
+				}
+			}
+			sawTOML = true
+			classify("flood beyond the kernel's event queue")
 		case "sleep":
 			time.Sleep(time.Duration(op.N) * time.Millisecond)
 		}
@@ -279,6 +293,12 @@ func genC19(t *rapid.T) C19Case {
 			op.File = ""
 			op.N = rapid.IntRange(1, 50).Draw(t, "ms")
 		}
+		if i == 0 && rapid.IntRange(0, 9).Draw(t, "flood") == 0 {
+			// once per case at most, and followed by an isolated write: after the flood the watcher must still notice it
+			op = c19Op{Kind: "flood", Dir: op.Dir, File: "a.toml", N: rapid.IntRange(17000, 40000).Draw(t, "floodN")}
+			c.Ops = append(c.Ops, op, c19Op{Kind: "write", Dir: rapid.IntRange(0, 3).Draw(t, "afterFloodDir"), File: "a.toml"})
+			continue
+		}
 		if rapid.IntRange(0, 3).Draw(t, "late") == 0 {
 			op.Delay = rapid.IntRange(1, 200).Draw(t, "delay")
 		}
@@ -297,6 +317,8 @@ func (c C19Case) Sample() interface{} {
 		switch o.Kind {
 		case "write":
 			s = fmt.Sprintf("write %s/%s %s", c12Dirs[o.Dir][len("hidi-config/"):], o.File, o.How)
+		case "flood":
+			s = fmt.Sprintf("flood x%d on %s/{a,device}.toml", o.N, c12Dirs[o.Dir][len("hidi-config/"):])
 		case "burst":
 			s = fmt.Sprintf("burst x%d from %s/%s", o.N, c12Dirs[o.Dir][len("hidi-config/"):], o.File)
 		default:
